@@ -99,8 +99,8 @@ structure RouterSt where
   tree : List RouteRec := []
   /-- `len(routeTree.routes) > 0`: some route was ever declared on this router -/
   hasInfo : Bool := false
-  /-- the `*route.Route` objects created on this router, each with its own `route.handlers`
-      (what `Where…` re-registers) -/
+  /-- the `*route.Route` objects created on this router (`routeLog`), each with its own `route.handlers`
+      (what `Where…` re-registers and what `Mount` reads) -/
   objs : List RouteRec := []
   deriving Repr, Inhabited
 
@@ -155,20 +155,16 @@ def reRegister (ver : Option Nat) (path : Path) (r : RouterSt) : RouterSt :=
 def World.addRouteOn (w : World) (r : Nat) (rt : RouteRec) : World :=
   { w with routers := modifyAt w.routers r (addRoute · rt) }
 
-/-- `Router.Mount` + `mergeSubrouterRoutes` / `mountRoute` / `mergeFromSubrouterTrees` -/
+/-- `Router.Mount` + `mergeSubrouterRoutes` / `mountRoute` (after the K02b fix): every route ever created on the
+    sub-router — still pending, or registered because the sub-router was warmed up earlier — is mounted from
+    the `route.Route` itself (`routeLog`): mount chain, then the route's own handlers. -/
 def mountOp (w : World) (parent sub seg : Nat) (inherit : Bool) (extra : List Hid) : World :=
   match w.routers[parent]?, w.routers[sub]? with
   | some p, some s =>
     -- middlewareChain = [parent.middleware if InheritMiddleware] ++ sub.middleware ++ ExtraMiddleware
     let chain := (if inherit then p.mw else []) ++ s.mw ++ extra
-    -- every pending route of the sub-router (its version is not looked at): addRouteInternal on the parent
-    let w1 := s.pending.foldl (fun w rt => w.addRouteOn parent { ver := none, path := seg :: rt.path, hs := chain ++ rt.hs }) w
-    -- `len(routeInfos) > 0 && len(pendingRoutes) == 0`: walk the sub-router's main trees; the node
-    -- handlers already carry the sub-router's global middleware of registration time
-    if s.hasInfo && s.pending.isEmpty then
-      (s.tree.filter (·.ver.isNone)).foldl
-        (fun w rt => w.addRouteOn parent { ver := none, path := seg :: rt.path, hs := chain ++ rt.hs }) w1
-    else w1
+    -- every route of the sub-router (its version is not looked at): addRouteInternal on the parent
+    s.objs.foldl (fun w rt => w.addRouteOn parent { ver := none, path := seg :: rt.path, hs := chain ++ rt.hs }) w
   | _, _ => w
 
 def apply (w : World) : Op → World
